@@ -14,7 +14,10 @@ Independent oracle (sweep): probe decks with cells -b, +b, -b.k, +b.k converted
 end to end (impl.convert), membership in the written volumes (t4eval) against
 mcnpref.macro_facets at random points and at points just inside / outside
 every facet; about a third of the bodies carry a TR number on their surface
-card (to_surfaces_macro hands the transformation to every facet).'''
+card (to_surfaces_macro hands the transformation to every facet).  A second
+sweep moves cells that reference ONE body in several ways (-b.j b.k, -b and b.k
+in sibling cells, ...) by TRCL (inline, by number, starred, translation only)
+or places them as a universe by FILL with a transformation (pot_transform).'''
 import json
 import random
 
@@ -390,6 +393,226 @@ def sweep_deck(bodies, rng, n_random, n_near, trs=None):
                         'aux': list(p_aux), 'tr': trs.get(sid),
                         'expected': want, 'observed': got})
     return out
+
+
+# ---- sweep of TRANSFORMED cells: several references to one body -----------
+#
+# pot_transform moves every surface reference of a cell that carries a TRCL, or
+# of a universe placed by FILL with a transformation.  The facet number of a
+# reference b.k must survive that step, also when the same body is referenced
+# in several ways under the same transformation (-b.1 b.3, -b and b.2 in sibling
+# cells, ...).  Expressions are small trees over literals (sign, k or None).
+
+PERMUTATIONS = TR_ROTATIONS[:4]          # entries 0, +-1: exact angles for *TRCL
+
+
+def lit_text(sid, lit):
+    sign, k = lit
+    return ('-' if sign < 0 else '') + str(sid) + ('' if k is None else f'.{k}')
+
+
+def expr_text(sid, expr, top=True):
+    if expr[0] == 'lit':
+        return lit_text(sid, expr[1])
+    parts = [expr_text(sid, e, False) for e in expr[1]]
+    if expr[0] == 'and':
+        return ' '.join(parts)
+    text = ' : '.join(parts)
+    return text if top else '(' + text + ')'
+
+
+def expr_lits(expr):
+    if expr[0] == 'lit':
+        return [expr[1]]
+    return [l for e in expr[1] for l in expr_lits(e)]
+
+
+def expr_value(expr, vals):
+    if expr[0] == 'lit':
+        sign, k = expr[1]
+        if k is None:
+            inside = all(v < 0 for v in vals)
+            return inside if sign < 0 else not inside
+        return vals[k - 1] * sign > 0
+    sub = [expr_value(e, vals) for e in expr[1]]
+    return all(sub) if expr[0] == 'and' else any(sub)
+
+
+def expr_ambiguous(expr, vals):
+    for _, k in expr_lits(expr):
+        if k is None:
+            if any(abs(v) < EPS for v in vals):
+                return True
+        elif abs(vals[k - 1]) < EPS:
+            return True
+    return False
+
+
+def gen_exprs(rng, nfac):
+    '''Expressions that reference one body in several ways: single references
+    for sibling cells and combinations inside one cell.'''
+    def lit(sign, k):
+        return ('lit', (sign, k))
+    ks = list(range(1, nfac + 1))
+    rng.shuffle(ks)
+    j, k, m = (ks * 3)[:3]
+    exprs = [lit(-1, None), lit(1, j), lit(-1, k), lit(1, None)]
+    exprs.append(('and', [lit(1, None), lit(-1, j)]))
+    exprs.append(('or', [lit(-1, None), lit(1, k)]))
+    if nfac >= 2:
+        exprs += [('and', [lit(-1, j), lit(1, k)]),
+                  ('or', [lit(1, j), lit(1, k)]),
+                  ('and', [lit(-1, k), lit(-1, j), lit(1, None)]),
+                  ('and', [lit(-1, j), ('or', [lit(1, k), lit(-1, m)])])]
+    rng.shuffle(exprs)
+    return exprs[:rng.choice([4, 6, 8])]
+
+
+def tr_words(tr):
+    return ' '.join(num(x) for x in tr[0] + tr[1])
+
+
+def gen_placement(rng):
+    '''How the cells are moved: (kind, tr, cell keyword text, data cards).'''
+    kind = rng.choice(['trcl-inline', 'trcl-inline', 'trcl-shift', 'trcl-num',
+                       'trcl-star', 'fill-inline', 'fill-inline', 'fill-num',
+                       'fill-shift'])
+    origin, mat = gen_tr(rng)
+    if kind.endswith('shift'):
+        mat = list(TR_ROTATIONS[0])
+    if kind == 'trcl-star':
+        mat = list(rng.choice(PERMUTATIONS))
+    tr = (origin, mat)
+    data = []
+    if kind == 'trcl-inline':
+        key = f'trcl=({tr_words(tr)})'
+    elif kind == 'trcl-shift':
+        key = 'trcl=(' + ' '.join(num(x) for x in origin) + ')'
+    elif kind == 'trcl-num':
+        key = 'trcl=7'
+        data = [wrap('tr7 ' + tr_words(tr))]
+    elif kind == 'trcl-star':
+        degrees = {1: 0, 0: 90, -1: 180}
+        key = ('*trcl=(' + ' '.join(num(x) for x in origin) + ' '
+               + ' '.join(str(degrees[int(x)]) for x in mat) + ')')
+    elif kind == 'fill-inline':
+        key = f'fill=1 ({tr_words(tr)})'
+    elif kind == 'fill-shift':
+        key = 'fill=1 (' + ' '.join(num(x) for x in origin) + ')'
+    else:
+        key = 'fill=1 (7)'
+        data = [wrap('tr7 ' + tr_words(tr))]
+    return kind, tr, key, data
+
+
+def transformed_deck(body, exprs, placement):
+    '''Returns (text, {expression index: how to find its volume}).'''
+    sid, mn, prm = body
+    kind, _tr, key, data = placement
+    cells, where = [], {}
+    if kind.startswith('trcl'):
+        for i, expr in enumerate(exprs):
+            cid = i + 1
+            cells.append(wrap(f'{cid} 0 {expr_text(sid, expr)} {key} imp:n=1'))
+            where[i] = ('id', cid)
+    else:
+        for i, expr in enumerate(exprs):
+            cid = i + 1
+            cells.append(wrap(f'{cid} 0 {expr_text(sid, expr)} u=1 imp:n=1'))
+            where[i] = ('comment', f'({cid}, 90)')
+        cells.append(wrap(f'90 0 -999 {key} imp:n=1'))
+        cells.append('91 0 999 imp:n=0')
+    surfs = [wrap(f'{sid} {mn} ' + ' '.join(num(x) for x in prm))]
+    if not kind.startswith('trcl'):
+        surfs.append('999 so 500')
+    text = ('C03 transformed cells\n' + '\n'.join(cells) + '\n\n'
+            + '\n'.join(surfs) + '\n\n' + '\n'.join(data)
+            + ('\n' if data else ''))
+    return text, where
+
+
+def sweep_transformed(body, rng, n_random, n_near):
+    '''One deck of cells moved by one transformation, all referencing the
+    body in different ways.  Same result layout as sweep_deck.'''
+    sid, mn, prm = body
+    exprs = gen_exprs(rng, n_facets(mn, prm))
+    placement = gen_placement(rng)
+    kind, tr = placement[0], placement[1]
+    text, where = transformed_deck(body, exprs, placement)
+    conv = impl.convert(text)
+    out = {'text': text, 'conv': conv, 'failures': [], 'checked': 0,
+           'skipped_sheet': 0, 'kind': kind}
+    if not conv.ok or conv.text is None:
+        return out
+    t4 = impl.T4File(conv.text)
+    if t4.errors:
+        out['failures'].append({'error': f'unreadable file: {t4.errors[:2]}'})
+        return out
+    ev = t4eval.Evaluator(t4, eps=EPS)
+    vols = {}
+    for i, (how, what) in where.items():
+        if how == 'id':
+            vols[i] = [what] if what in t4.volumes else []
+        else:
+            vols[i] = [vid for vid, vol in t4.volumes.items()
+                       if vol.get('comment', '').strip() == what
+                       and not vol.get('fictive')]
+    facets = G.ref_facets(mn, prm)
+    pts = G.sample_points(rng, mn, prm, facets, n_random, n_near)
+    for p_aux in pts:
+        vals = [f(p_aux) for f in facets]
+        p = to_main(tr, p_aux)
+        cache = {}
+        for i, expr in enumerate(exprs):
+            if expr_ambiguous(expr, vals):
+                continue
+            if mn == 'trc' and G.trc_other_sheet(prm, p_aux) \
+                    and any(k == 1 for _, k in expr_lits(expr)):
+                out['skipped_sheet'] += 1
+                continue
+            want = expr_value(expr, vals)
+            try:
+                got = any(ev.inside(vid, p, cache) for vid in vols[i])
+            except t4eval.T4EvalError as exc:
+                if 'within eps' in str(exc):
+                    continue
+                out['failures'].append({
+                    'surface': sid, 'mn': mn, 'params': prm, 'tr': tr,
+                    'expr': expr_text(sid, expr), 'placement': kind,
+                    'point': list(p), 'aux': list(p_aux),
+                    'error': f'T4 evaluation: {exc}'})
+                continue
+            out['checked'] += 1
+            if got != want:
+                out['failures'].append({
+                    'surface': sid, 'mn': mn, 'params': prm, 'tr': tr,
+                    'expr': expr_text(sid, expr), 'placement': kind,
+                    'point': list(p), 'aux': list(p_aux),
+                    'expected': want, 'observed': got,
+                    'volumes': vols[i]})
+    return out
+
+
+def report_transformed(res, sweep, label):
+    '''One violation per expression with the first failing point.'''
+    seen = set()
+    for fail in sweep['failures']:
+        key = fail.get('expr')
+        if key in seen:
+            continue
+        seen.add(key)
+        if 'error' in fail:
+            what = (f'{label}: {fail["error"]} ({fail.get("mn")} '
+                    f'{fail.get("params")}, cell {fail.get("expr")})')
+        else:
+            what = (f'{label} ({fail["placement"]}, TR {fail["tr"]}): '
+                    f'{fail["mn"].upper()} {fail["params"]}: cell '
+                    f'"{fail["expr"]}" at point {fail["point"]}: MCNP '
+                    f'semantics say {fail["expected"]}, the written volume(s) '
+                    f'{fail["volumes"]} say {fail["observed"]}')
+        res.violation('impl-violation', what,
+                      {'input': {'deck': sweep['text'], 'failure': fail}},
+                      cls=classify(fail), found_input=True)
 
 
 def classify(failure):
@@ -806,6 +1029,37 @@ def run(res, tier, seed, proofs_ok):
                    '-b, +b, -b.k, +b.k against mcnpref.macro_facets',
                    checked > (100000 if quick else 1000000),
                    f'{checked} comparisons')
+
+    # ---- 3b. transformed cells referencing one body in several ways ----
+    n_tdecks = 70 if quick else 700
+    tchecked = 0
+    tpool = [b for b in pool if n_facets(*b) >= 1]
+    # fixed cases first: the RPP of the seeded-change demo under every placement
+    fixed = [('rpp', [-1.0, 1, -2, 2, -3, 3]), ('box', [0.0, 0, 0, 0, 2, 0, 1, 0, 0, 0, 0, 3]),
+             ('rcc', [0.0, 0, 0, 0, 0, 2, 1]), ('wed', [0.0, 0, 0, 0, 2, 0, 1, 0, 0, 0, 0, 3])]
+    for d in range(n_tdecks):
+        mn, prm = fixed[d] if d < len(fixed) else tpool[(k + d) % len(tpool)]
+        sw = sweep_transformed((rng.randint(1, 89), mn, prm), rng,
+                               *((40, 3) if quick else (120, 6)))
+        res.count(f'transformed:{sw["kind"]}')
+        res.count(f'transformed-body:{mn}')
+        tchecked += sw['checked']
+        if not sw['conv'].ok:
+            res.violation('impl-violation',
+                          'deck of transformed cells referencing an admissible '
+                          f'macrobody rejected: {sw["conv"].exc}: '
+                          f'{sw["conv"].msg[:200]}',
+                          {'input': {'deck': sw['text']}}, found_input=True)
+            continue
+        if d == 0:
+            res.sample({'deck': sw['text']})
+        report_transformed(res, sw, 'transformed cells')
+    res.count('transformed:membership-comparisons', tchecked)
+    res.obligation(f'sweep-transformed: {tchecked} membership comparisons of '
+                   'cells under TRCL / FILL transformations that reference one '
+                   'macrobody in several ways',
+                   tchecked > (15000 if quick else 300000),
+                   f'{tchecked} comparisons')
 
     # facet numbers beyond the last facet must stop the conversion
     for mn, prm in [('box', G.gen_box(rng)), ('rcc', G.gen_rcc(rng)),
